@@ -71,6 +71,18 @@ func driveV1(p *Plan, shard int, w *Writer, t *codec.Table) {
 		var eab bool
 		re := drive.Guard(func() drive.Res { x, y := fresh(); eab = x.Equals(y, md...); return drive.Res{St: "ok"} })
 		w.Emit(shard, Rec{"sess": id, "op": "EqualsAB", "res": drive.Res{St: re.St, Bool: &eab}})
+		// the patched document is a document like any other: its diff against b is empty exactly when it Equals b
+		if full.St == "ok" && patched != nil {
+			var n1, n2 int
+			var eqp bool
+			rr := drive.Guard(func() drive.Res {
+				_, y := fresh()
+				eqp = patched.Equals(y, md...)
+				n1, n2 = len(patched.Diff(y, md...)), len(y.Diff(patched, md...))
+				return drive.Res{St: "ok"}
+			})
+			w.Emit(shard, Rec{"sess": id, "op": "Rediff", "st": rr.St, "eq": eqp, "n1": n1, "n2": n2})
+		}
 		// the statement once more on one set of live values: Patch on the very a the diff was computed from
 		var seq bool
 		_, sres := v1Res(v, func() (jd1.JsonNode, error) {
